@@ -47,6 +47,18 @@ MUTANTS = [
  ("C05-g", "C05", V + "tensor_fixed_views_2d.h",
   "data_setter(_data,_vec,S0*i*N+S1*j+Padding,S1);", "data_setter(_data,_vec,S0*i*N+S1*j+Padding,1);", 2,
   "/f2b,/f2d", "fixed 2-D view, one operator: `data_setter` called with stride 1 instead of S1"),
+ ("C05-i", "C05", "Fastor/tensor/IndexRetriever.h",
+  "const size_t k = get_index<2>(args...) < 0 ? P + get_index<2>(args...) : get_index<2>(args...);\n#if FASTOR_BOUNDS_CHECK\n    FASTOR_ASSERT( ( (i>=0 && i<M) && (j>=0 && j<N) && (k>=0 && k<P)),",
+  "const size_t k = get_index<2>(args...) < 0 ? N + get_index<2>(args...) : get_index<2>(args...);\n#if FASTOR_BOUNDS_CHECK\n    FASTOR_ASSERT( ( (i>=0 && i<M) && (j>=0 && j<N) && (k>=0 && k<P)),", 0,
+  "elemwrite", "seeded C05-m2: rank-3 `get_flat_index` wraps a negative third index with N instead of P (scalar element write A(i,j,-1) = x)"),
+ ("C05-j", "C05", "Fastor/tensor/IndexRetriever.h",
+  "const size_t l = get_index<3>(args...) < 0 ? Q + get_index<3>(args...) : get_index<3>(args...);",
+  "const size_t l = get_index<3>(args...) < 0 ? P + get_index<3>(args...) : get_index<3>(args...);", 0,
+  "elemwrite", "rank-4 `get_flat_index` wraps a negative fourth index with P instead of Q"),
+ ("C05-k", "C05", "Fastor/tensor/IndexRetriever.h",
+  "const size_t j = get_index<1>(args...) < 0 ? N + get_index<1>(args...) : get_index<1>(args...);\n#if FASTOR_BOUNDS_CHECK\n    FASTOR_ASSERT( ( (i>=0 && i<M) && (j>=0 && j<N)), \"INDEX OUT OF BOUNDS\");",
+  "const size_t j = get_index<1>(args...) < 0 ? M + get_index<1>(args...) : get_index<1>(args...);\n#if FASTOR_BOUNDS_CHECK\n    FASTOR_ASSERT( ( (i>=0 && i<M) && (j>=0 && j<N)), \"INDEX OUT OF BOUNDS\");", 0,
+  "elemwrite", "rank-2 `get_flat_index` wraps a negative column index with M instead of N"),
  ("C18-a", "C18", V + "tensor_views_1d.h",
   "            auto tmp = TensorViewExpr<Tensor<T,N>,1>(tmp_this_tensor,_seq);\n            // Assign other to temporary\n            tmp = other;\n            // assign temporary to this\n            this->operator+=(tmp);",
   "            auto tmp = TensorViewExpr<Tensor<T,N>,1>(_expr,_seq);\n            // Assign other to temporary\n            tmp = other;\n            // assign temporary to this\n            this->operator+=(tmp);", 0,
